@@ -67,6 +67,8 @@ def register(M):
                 return x
             if type(x).__name__ == 'NanConst' or (isinstance(x, Sc) and x.d == X.NAN):
                 return float('nan')
+            if isinstance(x, (tuple, list)):
+                return tuple(sort_num(y) if not isinstance(y, str) else y for y in x)      # sequences compare lexicographically
             return conc_num(x, node)
         try:
             vals = [sort_num(x) if not isinstance(x, str) else x for x in items]
